@@ -446,6 +446,11 @@ def check_c03(ctx, R):
             raise AnalysisError("B2: no `%s <word>` emission found" % kw)
     # B3
     wname = comp.methods.get("_output_name_of_cable_wire_")
+    if wname is None:
+        # by what it does: the one method that writes `rename <identifier>_<i>_ "<name>[<i>]"` for a bit of a cable
+        cands_ = [m_ for m_ in comp.methods.values() if any(isinstance(x, ast.Constant) and isinstance(x.value, str) and x.value.startswith("rename ") for x in walk_local(m_.node))
+                  and "'EDIF.identifier'" in norm(m_.node) and "'['" in norm(m_.node)]
+        wname = cands_[0] if len(cands_) == 1 else None
     par = P.cls(PARS, "EdifParser")
     mba = par.methods.get("multibit_add_cable")
     sep = par.methods.get("separate_name_and_index")
@@ -804,4 +809,25 @@ def check_dependency_order(ctx, R, rid):
             R.ok(rid, "%s emits a node when none of its dependencies is pending, and once" % f.qualname, f.loc(e))
         else:
             R.bad(rid, "%s|emit once" % f.key, f.loc(e), "%s can emit a node twice (no `%s not in %s` test at the emission): the cell is written twice" % (f.qualname, cur, vis))
+    # (d) roots are taken one at a time, in the order given: the stack starts as `[root]` for each root of a loop over the input.  Seeded
+    # with the whole input, the last root is popped first and mutually independent cells come out reversed — a valid order, but one that
+    # changes with every pass over an already sorted list
+    n += 1
+    worker = T["worker"]
+    inits = [a for a in ast.walk(f.node) if isinstance(a, ast.Assign) and len(a.targets) == 1 and norm(a.targets[0]) == stack]
+    seeds = [a.value for a in inits]
+    for g_ in [x for x in ast.walk(f.node) if isinstance(x, ast.FunctionDef) and x is not f.node]:
+        if stack in [x.arg for x in g_.args.args]:
+            k = [x.arg for x in g_.args.args].index(stack)
+            seeds += [c.args[k] for c in ast.walk(f.node) if isinstance(c, ast.Call) and isinstance(c.func, ast.Name) and c.func.id == g_.name and len(c.args) > k]
+    one_root = [v for v in seeds if isinstance(v, ast.List) and len(v.elts) == 1 and not isinstance(v.elts[0], ast.Starred)]
+    if seeds and len(one_root) == len(seeds):
+        R.ok(rid, "%s starts the stack with one root at a time" % f.qualname, f.loc(inits[0]) if inits else f.loc())
+    elif seeds:
+        bad_ = next(v for v in seeds if v not in one_root)
+        R.bad(rid, "%s|stack seeded with many roots" % f.key, f.loc(bad_),
+              "%s starts its stack as `%s` instead of one root at a time: the last root is handled first, so cells that do not depend on each other are "
+              "emitted in reverse input order — every pass over an already ordered list reorders it again (two successive writes differ)" % (f.qualname, short(bad_, 40)))
+    else:
+        R.bad(rid, "%s|stack never seeded" % f.key, f.loc(), "%s: cannot find where the stack `%s` gets its first element" % (f.qualname, stack))
     return n, T
